@@ -23,6 +23,9 @@ def check(chk, thorough=False):
     chk.run('C10.j', 'R-SCHEMA', 'a well-formed administrative record addressed to this node is delivered: the status-report handler does not take the record apart by a fixed item count (RFC 9171 6.1.1: four items, six for a report about a fragment)', lambda ob: c10j(tree, ob), floor=1)
     chk.run('C10.k', 'R-FRESH', 'the seen-set, queues and per-bundle records belong to their agent / container object (created per instance, no shared default objects)', lambda ob: (__import__('sa.props.common', fromlist=['per_instance_state', 'fresh_defaults']).per_instance_state(tree, ob, 'bp/agent.py', ('Agent',)), __import__('sa.props.common', fromlist=['per_instance_state', 'fresh_defaults']).per_instance_state(tree, ob, 'bp/util.py', ('BundleContainer',)), __import__('sa.props.common', fromlist=['per_instance_state', 'fresh_defaults']).per_instance_state(tree, ob, 'bp/cla.py', ('AbstractAdaptor', 'UdpclAdaptor', 'BtpuAdaptor', 'TcpclAdaptor')), __import__('sa.props.common', fromlist=['per_instance_state', 'fresh_defaults']).fresh_defaults(tree, ob, ['bp/agent.py', 'bp/util.py', 'bp/cla.py', 'bp/config.py'])), floor=3)
     chk.run('C10.l', 'R-TRUTH', 'the node ID and the route tables the agent works with are the configured ones: the configuration loader hands every setting on as read', lambda ob: __import__('sa.props.common', fromlist=['config_verbatim']).config_verbatim(tree, ob, 'bp/config.py'), floor=2)
+    chk.run('C10.m', 'sibling', 'checking a CRC leaves the block as it was, so a bundle that passed the gate is not dropped later for a CRC the check itself destroyed (= C08.c)', lambda ob: __import__('sa.props.c08', fromlist=['c08c']).c08c(tree, ob), floor=8)
+    chk.run('C10.n', 'R-NOPATH', 'security steps act only on bundles delivered here: a transit or unrouted bundle is not deleted by them (= C12.b)', lambda ob: __import__('sa.props.c12', fromlist=['c12b']).c12b(tree, ob), floor=8)
+    chk.run('C10.o', 'R-FLOW', 'an administrative bundle for this node is delivered whether it arrived whole or in fragments: the record is read from the payload block data (= C06.k)', lambda ob: __import__('sa.props.c06', fromlist=['c06k']).c06k(tree, ob), floor=1)
     chk.run('C10.e', 'R-WHO', 'actions are recorded only through record_action (two sanctioned direct edits)', lambda ob: c10e(tree, ob), floor=3)
 
 
